@@ -218,6 +218,27 @@ func (a *FA) vn1(v ssa.Value) string {
 	case *ssa.Builtin:
 		return "bi:" + x.Name()
 	case *ssa.BinOp:
+		if isIntType(x.Type()) {
+			lin := false
+			switch x.Op {
+			case token.ADD, token.SUB:
+				lin = true
+			case token.MUL:
+				_, c1 := constInt64(stripConv(x.X))
+				_, c2 := constInt64(stripConv(x.Y))
+				lin = c1 || c2
+			case token.SHL:
+				k, c := constInt64(stripConv(x.Y))
+				lin = c && k >= 0 && k < 62
+			}
+			if lin {
+				// canonical linear form: x<<1, x*2, x+x and reordered sums get one value number
+				L := a.lin(x, 0)
+				if !(len(L.T) == 1 && L.K == 0 && L.T["v:"+x.Name()] == 1) {
+					return "L{" + L.String() + "}"
+				}
+			}
+		}
 		l, r := a.VN(x.X), a.VN(x.Y)
 		if commutative[x.Op] && r < l {
 			l, r = r, l
@@ -225,6 +246,9 @@ func (a *FA) vn1(v ssa.Value) string {
 		return "(" + x.Op.String() + " " + l + " " + r + ")"
 	case *ssa.UnOp:
 		if x.Op == token.MUL {
+			if sv := singleStoreCell(x.X); sv != nil {
+				return a.VN(sv) // a parameter spilled into a cell because a closure captures it
+			}
 			return "ld(" + a.VN(x.X) + ")@" + a.Epoch(x)
 		}
 		if x.Op == token.ARROW {
@@ -249,6 +273,16 @@ func (a *FA) vn1(v ssa.Value) string {
 		return fmt.Sprintf("ex(%s,#%d)", a.VN(x.Tuple), x.Index)
 	case *ssa.Call:
 		name := calleeName(x.Common())
+		if f := x.Common().StaticCallee(); f != nil && f.Blocks != nil && a.W.InModule(f) && a.W.PureFunc(f) {
+			var as []string
+			for _, arg := range x.Common().Args {
+				as = append(as, a.VN(arg))
+			}
+			if symmetricFirstTwo[name] && len(as) >= 2 && as[1] < as[0] {
+				as[0], as[1] = as[1], as[0]
+			}
+			return "call:" + name + "(" + strings.Join(as, ",") + ")"
+		}
 		if pureCallee(name) {
 			var as []string
 			for _, arg := range x.Common().Args {
@@ -894,4 +928,58 @@ func (a *FA) AtomValueOfLin(L Lin) ssa.Value {
 		}
 	}
 	return nil
+}
+
+// symmetricFirstTwo: in-module pure functions that are symmetric in their first two arguments.
+// shiftMulti(a, b, h) = sum_{i+j>=h} a_i b_j 2^(i+j-h) is symmetric in (a, b) (DESIGN.md E9 exception).
+var symmetricFirstTwo = map[string]bool{"github.com/openacid/low/bmtree.shiftMulti": true}
+
+// singleStoreCell: addr is a local cell that is stored exactly once (with a value defined
+// before any load) and never stored to by a capturing closure; returns the stored value.
+func singleStoreCell(addr ssa.Value) ssa.Value {
+	al, ok := addr.(*ssa.Alloc)
+	if !ok || al.Referrers() == nil {
+		return nil
+	}
+	var stored ssa.Value
+	for _, ref := range *al.Referrers() {
+		switch x := ref.(type) {
+		case *ssa.Store:
+			if x.Addr != ssa.Value(al) {
+				return nil // the address itself is stored somewhere
+			}
+			if stored != nil {
+				return nil
+			}
+			stored = x.Val
+		case *ssa.UnOp:
+		case *ssa.DebugRef:
+		case *ssa.MakeClosure:
+			cl := x.Fn.(*ssa.Function)
+			for i, b := range x.Bindings {
+				if b != ssa.Value(al) {
+					continue
+				}
+				fv := cl.FreeVars[i]
+				if fv.Referrers() != nil {
+					for _, r2 := range *fv.Referrers() {
+						if st, ok := r2.(*ssa.Store); ok && st.Addr == ssa.Value(fv) {
+							return nil
+						}
+						if _, ok := r2.(*ssa.UnOp); !ok {
+							if _, ok := r2.(*ssa.Store); !ok {
+								return nil
+							}
+						}
+					}
+				}
+			}
+		default:
+			return nil
+		}
+	}
+	if _, isParam := stored.(*ssa.Parameter); !isParam {
+		return nil
+	}
+	return stored
 }
